@@ -15,7 +15,9 @@ From OV Require Import Common.Base.
 Open Scope N_scope.
 
 Definition bytes := list N.
-Inductive variant := Repaired | Defective.
+(* Repaired = /repo HEAD + the three open fix patches; Head = /repo HEAD exactly (the five committed fixes in, the three open
+   ones not); Defective = the code before every fix (historical witnesses only) *)
+Inductive variant := Repaired | Defective | Head.
 
 Definition zeros (n : nat) : bytes := repeat 0 n.
 Definition blen (b : bytes) : N := N.of_nat (length b).
@@ -89,7 +91,7 @@ Definition udp_header (sport dport ulen csum : N) : bytes :=
 
 Definition udp4_csum (v : variant) (s4 d4 udp0 : bytes) : result N :=
   c <- csum_finish (sum_words s4 + sum_words d4 + 17 + blen udp0 + sum_skip (Some 6) 0 true udp0) ;;
-  Ok (if c =? 0 then (match v with Defective => 0 | Repaired => 65535 end) else c).
+  Ok (if c =? 0 then (match v with Defective => 0 | _ => 65535 end) else c).
 Definition udp6_csum (s16 d16 udp0 : bytes) : result N :=
   c <- csum_finish (sum_words s16 + sum_words d16 + blen udp0 + 17 + sum_skip (Some 6) 0 true udp0) ;;
   Ok (if c =? 0 then 65535 else c).
@@ -133,19 +135,19 @@ Definition build_udp_packet (src dst : option bytes) (sport dport : N) (payload 
   Ok (ip4_header total s4 d4 hc ++ udp_header sport dport ulen uc ++ payload).
 
 (* ------------------------------------------------------------------ relay/rewrite.go: WrapIPUDP *)
-Definition wrap_ip_udp (payload : bytes) (src dst : option bytes) : result bytes :=
+(* Defective (HEAD before fixes/C19_giaddr_ipv4_only.patch): a non-IPv4 source or destination makes udpChecksum index a nil
+   slice -> panic.  Repaired: WrapIPUDP returns nil (modelled as the empty byte string) like BuildIPv4UDPFrame does. *)
+Definition wrap_ip_udp (v : variant) (payload : bytes) (src dst : option bytes) : result bytes :=
   let ulen := 8 + blen payload in
   let total := 20 + ulen in
-  let s4f := field 4 (to4 src) in
-  let d4f := field 4 (to4 dst) in
-  hc <- csum_finish (sum_words (ip4_header total s4f d4f 0)) ;;
   match to4 src, to4 dst with
   | Some s4, Some d4 =>
+    hc <- csum_finish (sum_words (ip4_header total s4 d4 0)) ;;
     let udp0 := udp_header 67 68 ulen 0 ++ payload in
     c <- csum_finish (sum_words s4 + sum_words d4 + 17 + blen udp0 + sum_words udp0) ;;
     let uc := if c =? 0 then 65535 else c in
     Ok (ip4_header total s4 d4 hc ++ udp_header 67 68 ulen uc ++ payload)
-  | _, _ => Panic      (* udpChecksum indexes srcIP[0] of a nil slice *)
+  | _, _ => match v with Repaired => Ok [] | _ => Panic end
   end.
 
 (* ------------------------------------------------------------------ relay/option82.go *)
@@ -194,19 +196,43 @@ Definition first_range (rs : list (nat * nat)) : list (nat * nat) :=
   match rs with [] => [] | r :: _ => [r] end.
 Definition insert_at (p : bytes) (i : nat) (x : bytes) : bytes := firstn i p ++ x ++ skipn i p.
 
+(* where the option walk meets a cut-off option (length byte missing or value running past the end of the packet) *)
+Fixpoint frag_at (fuel i : nat) (rest : bytes) : option nat :=
+  match fuel with
+  | O => None
+  | S f =>
+    match rest with
+    | [] => None
+    | c :: r =>
+      if c =? 0 then frag_at f (S i) r
+      else if c =? 255 then None
+      else match r with
+           | [] => Some i
+           | l :: r2 => if (length r2 <? N.to_nat l)%nat then Some i
+                        else frag_at f (i + 2 + N.to_nat l) (skipn (N.to_nat l) r2)
+           end
+    end
+  end.
+(* fixes/C19_opt82_cut_fragment.patch: InsertOption82 drops a cut-off trailing option before it works on the packet, so
+   that the fragment's length byte cannot swallow the relay's option 82 *)
+Definition cut_fragment (pkt : bytes) : bytes :=
+  if (length pkt <? 240)%nat then pkt
+  else match frag_at (S (length pkt)) 240 (skipn 240 pkt) with Some i => firstn i pkt | None => pkt end.
+
 Inductive policy := Keep | Drop | Replace.
 
 Definition opt_start : nat := 240.
 
 (* InsertOption82.  Before e92fcd5 the code remembered only the LAST option 82 it saw (Defective); HEAD
    removes every one. *)
-Definition insert_option82 (v : variant) (pkt opt82 : bytes) (pol : policy) : result bytes :=
+Definition insert_option82 (v : variant) (pkt0 opt82 : bytes) (pol : policy) : result bytes :=
+  let pkt := match v with Repaired => cut_fragment pkt0 | _ => pkt0 end in
   if (length pkt <? opt_start)%nat then Ok pkt
   else
     sc <- scan_opts 82 (S (length pkt)) opt_start (skipn opt_start pkt) [] ;;
     let '(endo, rs) := sc in
     let end_idx := match endo with Some e => e | None => length pkt end in
-    let sel := match v with Repaired => rs | Defective => last_range rs end in
+    let sel := match v with Defective => last_range rs | _ => rs end in
     let replace :=
         let pkt' := remove_ranges pkt sel in
         insert_at pkt' (end_idx - removed_total sel) opt82 in
@@ -222,7 +248,7 @@ Definition strip_option82 (v : variant) (pkt : bytes) : result bytes :=
   else
     sc <- scan_opts 82 (S (length pkt)) opt_start (skipn opt_start pkt) [] ;;
     let '(_, rs) := sc in
-    Ok (remove_ranges pkt (match v with Repaired => rs | Defective => first_range rs end)).
+    Ok (remove_ranges pkt (match v with Defective => first_range rs | _ => rs end)).
 
 (* ------------------------------------------------------------------ relay/rewrite.go *)
 (* findOption: no truncation check; returns the offset of the first option [code] whose length
@@ -284,7 +310,7 @@ Definition set_option4 (v : variant) (pkt : bytes) (code : N) (val4 : bytes) : r
       else insert_option pkt code val4
     | None => insert_option pkt code val4
     end
-  | Repaired =>
+  | _ =>
     if (length pkt <? opt_start)%nat then insert_option pkt code val4
     else
       sc <- scan_opts code (S (length pkt)) opt_start (skipn opt_start pkt) [] ;;
@@ -314,7 +340,7 @@ Definition get_option4 (pkt : bytes) (code : N) : result (option bytes) :=
 
 (* RewriteForProxy; before b498cfb clientLease*7/8 was evaluated in uint32 (Defective); HEAD uses uint64 *)
 Definition t2_of (v : variant) (lease : N) : N :=
-  match v with Defective => u32n (lease * 7) / 8 | Repaired => lease * 7 / 8 end.
+  match v with Defective => u32n (lease * 7) / 8 | _ => lease * 7 / 8 end.
 Definition rewrite_for_proxy (v : variant) (pkt : bytes) (server_id : option bytes) (lease : N) : result bytes :=
   p1 <- set_option_ip v pkt 54 server_id ;;
   p2 <- set_option_u32 v p1 51 lease ;;
@@ -336,12 +362,12 @@ Definition relay_forward4 (v : variant) (pkt : bytes) (gi : option bytes) (o82 :
 Definition relay_reply4 (v : variant) (reply : bytes) (gi : option bytes) : result bytes :=
   r <- strip_option82 v reply ;;
   sid <- get_option4 r 54 ;;
-  wrap_ip_udp r (match sid with Some s => Some s | None => gi end) (Some [255;255;255;255]).
+  wrap_ip_udp v r (match sid with Some s => Some s | None => gi end) (Some [255;255;255;255]).
 (* server -> client, proxy: StripOption82; RewriteForProxy(giaddr, lease); WrapIPUDP(giaddr) *)
 Definition proxy_reply4 (v : variant) (reply : bytes) (gi : option bytes) (lease : N) : result bytes :=
   r <- strip_option82 v reply ;;
   r2 <- rewrite_for_proxy v r gi lease ;;
-  wrap_ip_udp r2 gi (Some [255;255;255;255]).
+  wrap_ip_udp v r2 gi (Some [255;255;255;255]).
 
 (* ------------------------------------------------------------------ plugins/dhcp4/local/provider.go *)
 (* optionWriter.addByte: before 35c2549 the length byte was uint8(len(data)) (Defective); HEAD: RFC 3396 split *)
@@ -355,7 +381,7 @@ Fixpoint add_opt_split (fuel : nat) (code : N) (data : bytes) : bytes :=
 Definition add_opt (v : variant) (code : N) (data : bytes) : bytes :=
   match v with
   | Defective => [code; blen data mod 256] ++ data
-  | Repaired => add_opt_split (length data) code data
+  | _ => add_opt_split (length data) code data
   end.
 Definition write_opts (v : variant) (opts : list (N * bytes)) : bytes :=
   concat (map (fun o => add_opt v (fst o) (snd o)) opts).
@@ -371,6 +397,11 @@ Definition build_dhcp4_reply (v : variant) (xid : N) (ciaddr yiaddr siaddr : opt
            ++ zeros 4 ++ firstn 208 (hw ++ zeros 208) ++ magic
            ++ add_opt v 53 [msgtype mod 256] ++ write_opts v opts ++ [255]).
 
+(* fixes/C19_reply_skip_empty_options.patch: the address-valued options 1, 3, 6, 54 are not written when their value is
+   empty (non-IPv4 router / server-id / DNS entries, nil netmask); Defective (HEAD before the patch) writes length 0 *)
+Definition nz (code : N) (data : bytes) : list (N * bytes) := match data with [] => [] | _ => [(code, data)] end.
+Definition addr_opt (v : variant) (code : N) (data : bytes) : list (N * bytes) :=
+  match v with Repaired => nz code data | _ => [(code, data)] end.
 Definition dns_data (dns : list (option bytes)) : bytes :=
   concat (map (fun d => match to4 d with Some b => b | None => [] end) dns).
 Definition opt_bytes (ip : option bytes) : bytes := match ip with Some b => b | None => [] end.
@@ -380,8 +411,8 @@ Definition build_response_pool (v : variant) (xid : N) (ciaddr : option bytes) (
            (ip gateway : option bytes) (mask : bytes) (dns : list (option bytes)) (lease : N)
            (extra : list (N * bytes)) : result (option bytes) :=
   let gw4 := opt_bytes (to4 gateway) in
-  let opts := [(54, gw4); (51, put32 lease); (1, mask); (3, gw4)]
-              ++ (match dns with [] => [] | _ => [(6, dns_data dns)] end) ++ extra in
+  let opts := addr_opt v 54 gw4 ++ [(51, put32 lease)] ++ addr_opt v 1 mask ++ addr_opt v 3 gw4
+              ++ (match dns with [] => [] | _ => addr_opt v 6 (dns_data dns) end) ++ extra in
   payload <- build_dhcp4_reply v xid ciaddr ip gateway hw msgtype opts ;;
   build_ipv4_udp_frame v gateway (Some [255;255;255;255]) 67 68 payload.
 
@@ -431,10 +462,10 @@ Definition build_response_resolved (v : variant) (xid : N) (ciaddr : option byte
            (routes : list (N * option bytes * option bytes)) (extra : list (N * bytes)) : result (option bytes) :=
   let src := match server_id with Some _ => server_id | None => router end in
   rt <- (match routes with [] => Ok [] | _ => classless routes end) ;;
-  let opts := [(51, put32 lease); (1, mask)]
-              ++ (match server_id with Some _ => [(54, opt_bytes (to4 server_id))] | None => [] end)
-              ++ (match router with Some _ => [(3, opt_bytes (to4 router))] | None => [] end)
-              ++ (match dns with [] => [] | _ => [(6, dns_data dns)] end)
+  let opts := [(51, put32 lease)] ++ addr_opt v 1 mask
+              ++ (match server_id with Some _ => addr_opt v 54 (opt_bytes (to4 server_id)) | None => [] end)
+              ++ (match router with Some _ => addr_opt v 3 (opt_bytes (to4 router)) | None => [] end)
+              ++ (match dns with [] => [] | _ => addr_opt v 6 (dns_data dns) end)
               ++ (match routes with [] => [] | _ => [(121, rt)] end)
               ++ extra in
   payload <- build_dhcp4_reply v xid ciaddr yip src hw msgtype opts ;;
@@ -702,7 +733,7 @@ Fixpoint sub_tlv (fuel : nat) (l : bytes) : option (list (N * bytes)) :=
 (* ------------------------------------------------------------------ relay/v6rewrite.go *)
 Definition pref_t1 (pref : N) : N := pref / 2.
 Definition pref_t2 (v : variant) (pref : N) : N :=
-  match v with Defective => u32n (pref * 4) / 5 | Repaired => pref * 4 / 5 end.
+  match v with Defective => u32n (pref * 4) / 5 | _ => pref * 4 / 5 end.
 
 (* rewriteV6Options on a byte list; depth bounds the IA nesting *)
 Fixpoint rewrite6 (v : variant) (depth fuel : nat) (pref valid : N) (l : bytes) : bytes :=
